@@ -59,6 +59,16 @@ RowAwareIn(s) ==
 RowCases(S, P(_)) == UNION {Cross({P(s)}, RowAwareIn(s)) : s \in S}
 RowCasesE(S, P(_)) == UNION {CrossE({P(s)}, {In("rnd", k * StRowSize(s), 4, 0) : k \in {1, 2}}) : s \in S}     \* 1 and 2 whole rows x every edit
 
+(* Pipelines in which only an EARLIER stage carries decode parameters and a later stage of the same or another filter has   *)
+(* none (a null entry of the DecodeParms array): every stage must be decoded with its own parameters only.  ParmStages:     *)
+(* Flate with a predictor (row size 1, so that any data reaching it is whole rows, and one wider row) and LZW EarlyChange.   *)
+ParmStages(preds) == WithParms("Fl", {-1}, preds, {<<-1, -1, -1>>, <<1, 1, 7>>, <<1, 8, 1>>, <<1, 8, 5>>}) \cup {LZW(0), LZW(1)}
+BareKinds == {Plain("A85"), Plain("AHx"), Plain("RL"), Plain("Fl"), Plain("LZW")}
+MixedPipes(preds) ==      {<<s, t>> : s \in ParmStages(preds), t \in BareKinds}
+                     \cup {<<s, t, t>> : s \in ParmStages(preds), t \in {Plain("Fl"), Plain("LZW")}}
+                     \cup {<<t, s, t>> : s \in ParmStages(preds), t \in {Plain("Fl"), Plain("LZW")}}
+MixedIn == {In("rnd", 24, 4, 0), In("uniq", 300, 1, 0)}       \* 300 codes: EarlyChange 0 and 1 differ from the 9/10 bit switch on
+
 C15Cases ==
   IF Tier = "quick"
   THEN      CrossE(Pipes1(Kinds), CoreIn)
@@ -67,6 +77,7 @@ C15Cases ==
        \cup Cross(Pipes3(Kinds), {In("empty", 0, 0, 0), In("run", 128, 0, 0), In("rnd", 9, 1, 0)})
        \cup Cross(Pipes1(Kinds \cup {Plain("LZW")}), BoundaryIn)
        \cup Cross(Pipes1({Plain("LZW"), LZW(0), LZW(1)}), LzwIn(4))
+       \cup Cross(MixedPipes({2, 10, 12, 15}), MixedIn)
        \cup RowCases(WithParms("Fl", {-1}, PredAll, ParmFew), LAMBDA s : <<s>>)
        \cup RowCasesE(WithParms("Fl", {-1}, {2, 12}, {<<1, 8, 5>>, <<1, 1, 7>>, <<2, 16, 3>>, <<4, 4, 3>>}), LAMBDA s : <<s>>)
        \cup Cross(Pipes1(WithParms("LZW", {1}, PredAll, ParmFew)), ParmIn)
@@ -80,6 +91,7 @@ C15Cases ==
        \cup CrossE(Pipes3(Kinds), {In("empty", 0, 0, 0), In("rnd", 9, 1, 0)})
        \cup Cross(Pipes1({Plain("LZW"), LZW(0), LZW(1)}), CoreIn \cup BoundaryIn \cup LzwIn(12))
        \cup Cross(Pipes2({LZW(0), LZW(1)} \cup SimpleKinds) , LzwIn(2))
+       \cup Cross(MixedPipes(PredAll), MixedIn \cup {In("empty", 0, 0, 0), In("run", 129, 0, 0), In("uniq", 1000, 2, 0)})
        \cup RowCases(WithParms("Fl", {-1}, PredAll, ParmAll), LAMBDA s : <<s>>)
        \cup RowCasesE(WithParms("Fl", {-1}, Predictors \ {1}, ParmFew), LAMBDA s : <<s>>)
        \cup Cross(Pipes1(WithParms("LZW", {0, 1}, PredAll, ParmAll)), ParmIn)
